@@ -1,7 +1,8 @@
 /-
 Helper lemmas for C16 (`Props/C16.lean`): the liveness pass only issues a Delete from a timeout branch,
 `findUnhealthyConditions` returns a matching (policy, condition) pair with the earliest termination time,
-and the integer form of the rounded-up percentage.
+the integer form of the rounded-up percentage, and that neither the collector / node repair nor the
+specification distinguishes a terminating Node (deletion timestamp set, object still present) from any other.
 -/
 import Karp.Model.Reapers
 import Karp.Spec.Reapers
@@ -305,5 +306,360 @@ theorem nodesHealthy_iff (i : RepairIn) :
   rw [this]
   simp only [decide_eq_true_eq]
   exact scaled_roundUp_iff _ _ _
+
+
+/-! ### Terminating Nodes (deletion timestamp set, object still present) -/
+
+/-- the same cluster with the Nodes' deletion timestamps rewritten by `f` -/
+def GCIn.withTerminating (i : GCIn) (f : GNode → Bool) : GCIn :=
+  { i with nodes := i.nodes.map (fun n => { n with terminating := f n }) }
+
+theorem nodesOf_withTerminating (i : GCIn) (f : GNode → Bool) (pid : String) :
+    nodesOf (i.withTerminating f) pid = (nodesOf i pid).map (fun n => { n with terminating := f n }) := by
+  unfold nodesOf GCIn.withTerminating
+  simp only [List.filter_map]
+  rfl
+
+theorem lookup_withTerminating (i : GCIn) (f : GNode → Bool) (c : Claim) :
+    lookup (i.withTerminating f) c = lookup i c := by
+  unfold lookup
+  rw [nodesOf_withTerminating]
+  have hlf : (i.withTerminating f).lookupFault = i.lookupFault := rfl
+  rw [hlf]
+  cases nodesOf i c.pid with
+  | nil => rfl
+  | cons a l => cases l <;> rfl
+
+theorem gcOne_withTerminating (flag : Bool) (i : GCIn) (f : GNode → Bool) (c : Claim) :
+    gcOne flag (i.withTerminating f) c = gcOne flag i c := by
+  unfold gcOne
+  rw [lookup_withTerminating]
+  rfl
+
+theorem gcWith_withTerminating (flag : Bool) (i : GCIn) (f : GNode → Bool) :
+    gcWith flag (i.withTerminating f) = gcWith flag i := by
+  unfold gcWith
+  have h1 : (i.withTerminating f).listClaimsFault = i.listClaimsFault := rfl
+  have h2 : (i.withTerminating f).providerListFault = i.providerListFault := rfl
+  have h3 : (i.withTerminating f).claims = i.claims := rfl
+  have h4 : candidate (i.withTerminating f) = candidate i := rfl
+  simp only [h1, h2, h3, h4, gcOne_withTerminating]
+
+theorem gcMayDelete_withTerminating (i : GCIn) (f : GNode → Bool) (c : Claim) :
+    gcMayDelete (i.withTerminating f) c = gcMayDelete i c := by
+  unfold gcMayDelete nodeAbsentOrNotReady GCIn.withTerminating providerLacks
+  simp only [List.all_map]
+  rfl
+
+/-- one Node with its deletion timestamp rewritten by `f` -/
+def RNode.setTerminating (f : RNode → Bool) (n : RNode) : RNode := { n with terminating := f n }
+
+/-- the same cluster with the Nodes' deletion timestamps rewritten by `f` -/
+def RepairIn.withTerminating (i : RepairIn) (f : RNode → Bool) : RepairIn :=
+  { i with node := i.node.setTerminating f, others := i.others.map (RNode.setTerminating f) }
+
+theorem population_withTerminating (i : RepairIn) (f : RNode → Bool) :
+    population (i.withTerminating f) = (population i).map (RNode.setTerminating f) := by
+  unfold population RepairIn.withTerminating
+  cases i.claimPool with
+  | none => simp
+  | some p =>
+    simp only [← List.map_cons, List.filter_map]
+    rfl
+
+theorem unhealthyCount_withTerminating (i : RepairIn) (f : RNode → Bool) :
+    unhealthyCount (i.withTerminating f) = unhealthyCount i := by
+  unfold unhealthyCount
+  rw [population_withTerminating, List.filter_map, List.length_map]
+  rfl
+
+theorem nodesHealthy_withTerminating (i : RepairIn) (f : RNode → Bool) :
+    nodesHealthy (i.withTerminating f) = nodesHealthy i := by
+  unfold nodesHealthy
+  rw [unhealthyCount_withTerminating, population_withTerminating, List.length_map]
+
+theorem repairB_withTerminating (i : RepairIn) (f : RNode → Bool) :
+    repairB (i.withTerminating f) = repairB i := by
+  unfold repairB
+  rw [nodesHealthy_withTerminating]
+  rfl
+
+theorem breakerNodes_withTerminating (i : RepairIn) (f : RNode → Bool) :
+    breakerNodes (i.withTerminating f) = (breakerNodes i).map (RNode.setTerminating f) := by
+  rw [← population_eq, ← population_eq, population_withTerminating]
+
+theorem repairMayDelete_withTerminating (pct : Nat) (i : RepairIn) (f : RNode → Bool) :
+    repairMayDelete pct (i.withTerminating f) = repairMayDelete pct i := by
+  unfold repairMayDelete breakerClosed
+  rw [breakerNodes_withTerminating, List.filter_map, List.length_map, List.length_map]
+  rfl
+
+/-! ### Node repair over an evolving cluster -/
+
+/-- every entry of a run is `repairB` on the view of the cluster at that moment -/
+theorem runSeq_entries (ps : List Policy) (evs : List REvent) :
+    ∀ (st : List SNode) (i : RepairIn) (o : Out) (b : RBranch),
+      some (i, o, b) ∈ runSeq ps st evs → o = repair i := by
+  induction evs with
+  | nil => intro st i o b h; simp [runSeq] at h
+  | cons ev rest ih =>
+    intro st i o b h
+    simp only [runSeq, List.mem_cons] at h
+    rcases h with h | h
+    · unfold seqStep at h
+      cases ev with
+      | reconcile k now nlf df =>
+        simp only at h
+        cases hs : seqIn ps st k now nlf df with
+        | none => rw [hs] at h; simp at h
+        | some i' =>
+          rw [hs] at h
+          simp only [Option.some.injEq, Prod.mk.injEq] at h
+          obtain ⟨h1, h2, _⟩ := h
+          subst h1; subst h2; rfl
+      | setCond k c => simp at h
+      | terminate k => simp at h
+      | gone k => simp at h
+    · exact ih _ i o b h
+
+theorem countP_cons_eraseIdx {α : Type} (p : α → Bool) :
+    ∀ (l : List α) (k : Nat) (s : α), l[k]? = some s → (s :: l.eraseIdx k).countP p = l.countP p := by
+  intro l
+  induction l with
+  | nil => intro k s h; simp at h
+  | cons a l ih =>
+    intro k s h
+    cases k with
+    | zero =>
+      simp at h; subst h; simp
+    | succ k =>
+      simp only [List.getElem?_cons_succ] at h
+      have := ih k s h
+      simp only [List.eraseIdx_cons_succ, List.countP_cons] at this ⊢
+      omega
+
+/-- single pool `p`, every Node present and managed -/
+def Uniform (p : String) (st : List SNode) : Prop :=
+  ∀ s ∈ st, s.present = true ∧ s.hasClaim = true ∧ s.node.pool = p ∧ s.claimPool = some p
+
+def unh (ps : List Policy) (st : List SNode) : Nat := st.countP (fun s => isUnhealthy ps s.node)
+def pending (ps : List Policy) (st : List SNode) : Nat :=
+  st.countP (fun s => isUnhealthy ps s.node && !s.claimDeleting)
+
+theorem pending_le_unh (ps : List Policy) (st : List SNode) : pending ps st ≤ unh ps st := by
+  unfold pending unh
+  apply List.countP_mono_left
+  intro s _ h
+  simp only [Bool.and_eq_true] at h
+  exact h.1
+
+theorem filter_eq_self_of_all {α : Type} (p : α → Bool) (l : List α) (h : ∀ x ∈ l, p x = true) : l.filter p = l :=
+  List.filter_eq_self.mpr h
+
+theorem population_all (i : RepairIn) (p : String) (hcp : i.claimPool = some p)
+    (hall : ∀ n ∈ i.node :: i.others, n.pool = p) : population i = i.node :: i.others := by
+  unfold population
+  rw [hcp]
+  apply List.filter_eq_self.mpr
+  intro n hn
+  simpa using hall n hn
+
+/-- in a uniform cluster a reconcile of Node `k` counts the whole cluster -/
+theorem seqIn_uniform (ps : List Policy) (p : String) (st : List SNode) (hu : Uniform p st)
+    (k : Nat) (now : Int) (nlf df : Fault) (i : RepairIn) (h : seqIn ps st k now nlf df = some i) :
+    ∃ s, st[k]? = some s ∧ i.node = s.node ∧ i.claimDeleting = s.claimDeleting ∧ i.policies = ps ∧
+      i.deleteFault = df ∧ unhealthyCount i = unh ps st ∧ (population i).length = st.length := by
+  unfold seqIn at h
+  cases hk : st[k]? with
+  | none => rw [hk] at h; simp at h
+  | some s =>
+    rw [hk] at h
+    have hmem : s ∈ st := List.mem_of_getElem? hk
+    obtain ⟨hp, hc, hpool, hcp⟩ := hu s hmem
+    simp only [hp, Bool.not_true, Bool.false_eq_true, if_false, Option.some.injEq] at h
+    have hnode : i.node = s.node := by subst h; rfl
+    have hcd : i.claimDeleting = s.claimDeleting := by subst h; rfl
+    have hpol : i.policies = ps := by subst h; rfl
+    have hdf : i.deleteFault = df := by subst h; rfl
+    have hicp : i.claimPool = some p := by subst h; exact hcp
+    have hpres : (st.eraseIdx k).filter (·.present) = st.eraseIdx k :=
+      List.filter_eq_self.mpr (fun x hx => (hu x (List.mem_of_mem_eraseIdx hx)).1)
+    have hothers : i.others = (st.eraseIdx k).map (·.node) := by subst h; simp only [hpres]
+    have hpop : population i = (s :: st.eraseIdx k).map (·.node) := by
+      rw [population_all i p hicp, hnode, hothers, List.map_cons]
+      intro n hn
+      rw [hnode, hothers, ← List.map_cons (f := fun x : SNode => x.node)] at hn
+      simp only [List.mem_map] at hn
+      obtain ⟨x, hx, rfl⟩ := hn
+      have hx' : x ∈ st := by
+        rcases List.mem_cons.mp hx with h | h
+        · rw [h]; exact hmem
+        · exact List.mem_of_mem_eraseIdx h
+      exact (hu x hx').2.2.1
+    refine ⟨s, rfl, hnode, hcd, hpol, hdf, ?_, ?_⟩
+    · unfold unhealthyCount
+      rw [hpop, hpol, ← List.countP_eq_length_filter, List.countP_map]
+      exact countP_cons_eraseIdx _ st k s hk
+    · rw [hpop, List.length_map, List.length_cons, List.length_eraseIdx]
+      have hlt : k < st.length := by
+        rcases List.getElem?_eq_some_iff.mp hk with ⟨h, _⟩; exact h
+      simp [hlt]; omega
+
+/-- what a reconcile that issues a Delete has established -/
+theorem repair_delete_facts (i : RepairIn) (h : 0 < (repair i).deletes) :
+    isUnhealthy i.policies i.node = true ∧ i.claimDeleting = false ∧ nodesHealthy i = true ∧
+      (repair i).deletes = 1 := by
+  unfold repair repairB at h ⊢
+  by_cases h1 : i.claimListFault = true
+  · simp [h1] at h
+  · simp only [h1, Bool.false_eq_true, if_false] at h ⊢
+    by_cases h2 : (i.claims != 1) = true
+    · simp [h2] at h
+    · simp only [h2, Bool.false_eq_true, if_false] at h ⊢
+      cases hf : findUnhealthy i.policies i.node.conds with
+      | none => simp [hf] at h
+      | some r =>
+        obtain ⟨c, tol⟩ := r
+        simp only [hf] at h ⊢
+        obtain ⟨p, hp, hmatch, _⟩ := findUnhealthy_sound _ _ _ _ hf
+        have hun : isUnhealthy i.policies i.node = true := by
+          unfold isUnhealthy
+          simp only [List.any_eq_true]
+          exact ⟨p, hp, by rw [hmatch]; rfl⟩
+        by_cases h3 : i.now < c.since + tol
+        · simp [h3] at h
+        · simp only [h3, if_false] at h ⊢
+          cases hn : i.nodeListFault with
+          | notFound => simp [hn] at h
+          | err => simp [hn] at h
+          | conflict => simp [hn] at h
+          | none =>
+            simp only [hn] at h ⊢
+            by_cases h4 : nodesHealthy i = true
+            · simp only [h4, Bool.not_true, Bool.false_eq_true, if_false] at h ⊢
+              by_cases h5 : (patchNeeded i && i.patchFault != .none) = true
+              · simp [h5] at h
+              · simp only [h5, Bool.false_eq_true, if_false] at h ⊢
+                by_cases h6 : i.claimDeleting = true
+                · simp [h6] at h
+                · simp only [h6, Bool.false_eq_true, if_false]
+                  exact ⟨hun, trivial, trivial, trivial⟩
+            · simp [h4] at h
+
+theorem updateAt_eq (st : List SNode) (k : Nat) (f : SNode → SNode) (s : SNode) (h : st[k]? = some s) :
+    updateAt st k f = st.set k (f s) := by
+  unfold updateAt; rw [h]
+
+theorem uniform_set (p : String) (st : List SNode) (hu : Uniform p st) (k : Nat) (s s' : SNode)
+    (hk : st[k]? = some s) (h1 : s'.present = s.present) (h2 : s'.hasClaim = s.hasClaim)
+    (h3 : s'.node.pool = s.node.pool) (h4 : s'.claimPool = s.claimPool) : Uniform p (st.set k s') := by
+  intro x hx
+  rcases List.mem_or_eq_of_mem_set hx with hx | hx
+  · exact hu x hx
+  · have := hu s (List.mem_of_getElem? hk)
+    subst hx
+    rw [h1, h2, h3, h4]; exact this
+
+theorem countP_set_same {α : Type} (q : α → Bool) (l : List α) (k : Nat) (s s' : α) (hk : l[k]? = some s)
+    (h : q s' = q s) : (l.set k s').countP q = l.countP q := by
+  obtain ⟨hlt, hget⟩ := List.getElem?_eq_some_iff.mp hk
+  rw [List.countP_set hlt, hget, h]
+  have : (if q s = true then 1 else 0) ≤ l.countP q := by
+    have := List.boole_getElem_le_countP (p := q) hlt
+    rw [hget] at this; exact this
+  omega
+
+theorem countP_set_drop {α : Type} (q : α → Bool) (l : List α) (k : Nat) (s s' : α) (hk : l[k]? = some s)
+    (hs : q s = true) (hs' : q s' = false) : (l.set k s').countP q + 1 = l.countP q := by
+  obtain ⟨hlt, hget⟩ := List.getElem?_eq_some_iff.mp hk
+  rw [List.countP_set hlt, hget, hs, hs']
+  have : (if q s = true then 1 else 0) ≤ l.countP q := by
+    have := List.boole_getElem_le_countP (p := q) hlt
+    rw [hget] at this; exact this
+  simp only [hs, if_true] at this
+  simp
+  omega
+
+/-- the events of a quiet stretch: reconciles whose Delete the API server accepts, and Nodes starting to
+    terminate; no condition changes, nothing disappears -/
+def Quiet : REvent → Prop
+  | .reconcile _ _ _ df => df = .none
+  | .terminate _ => True
+  | _ => False
+
+theorem runSeq_quiet (ps : List Policy) (p : String) (evs : List REvent) :
+    ∀ (st : List SNode), Uniform p st → (∀ ev ∈ evs, Quiet ev) →
+      totalDeletes (runSeq ps st evs) ≤ pending ps st ∧
+      (0 < totalDeletes (runSeq ps st evs) → unh ps st ≤ threshold st.length) := by
+  induction evs with
+  | nil => intro st _ _; simp [runSeq, totalDeletes]
+  | cons ev rest ih =>
+    intro st hu hq
+    have hqr : ∀ e ∈ rest, Quiet e := fun e he => hq e (List.mem_cons_of_mem _ he)
+    have hqe : Quiet ev := hq ev List.mem_cons_self
+    cases ev with
+    | setCond k c => exact absurd hqe (by simp [Quiet])
+    | gone k => exact absurd hqe (by simp [Quiet])
+    | terminate k =>
+      simp only [runSeq, seqStep, applyEvent, totalDeletes, List.map_cons, List.sum_cons, Nat.zero_add]
+      cases hk : st[k]? with
+      | none =>
+        have : updateAt st k (fun s => { s with node := { s.node with terminating := true } }) = st := by
+          unfold updateAt; rw [hk]
+        rw [this]; exact ih st hu hqr
+      | some s =>
+        rw [updateAt_eq st k _ s hk]
+        have hu' := uniform_set p st hu k s { s with node := { s.node with terminating := true } } hk rfl rfl rfl rfl
+        have := ih _ hu' hqr
+        have hp : pending ps (st.set k { s with node := { s.node with terminating := true } }) = pending ps st :=
+          countP_set_same _ st k s _ hk rfl
+        have hun : unh ps (st.set k { s with node := { s.node with terminating := true } }) = unh ps st :=
+          countP_set_same _ st k s _ hk rfl
+        rw [hp, hun, List.length_set] at this
+        exact this
+    | reconcile k now nlf df =>
+      have hdf : df = .none := hqe
+      subst hdf
+      simp only [runSeq, seqStep]
+      cases hs : seqIn ps st k now nlf .none with
+      | none =>
+        simp only [stepDeleted, applyEvent, Bool.false_eq_true, if_false, totalDeletes, List.map_cons, List.sum_cons, Nat.zero_add]
+        exact ih st hu hqr
+      | some i =>
+        obtain ⟨s, hk, hnode, hcd, hpol, _, hcnt, hlen⟩ := seqIn_uniform ps p st hu k now nlf .none i hs
+        simp only [totalDeletes, List.map_cons, List.sum_cons]
+        by_cases hd : 0 < (repair i).deletes
+        · obtain ⟨hun, hndel, hhealthy, hone⟩ := repair_delete_facts i hd
+          have hone' : (repairB i).1.deletes = 1 := hone
+          have hdel : stepDeleted (.reconcile k now nlf .none) (some (i, (repairB i).1, (repairB i).2)) = true := by
+            simp [stepDeleted, hone']
+          rw [hdel]
+          simp only [applyEvent, if_true]
+          rw [updateAt_eq st k _ s hk]
+          have hu' := uniform_set p st hu k s { s with claimDeleting := true } hk rfl rfl rfl rfl
+          have := ih _ hu' hqr
+          have hp : pending ps (st.set k { s with claimDeleting := true }) + 1 = pending ps st := by
+            apply countP_set_drop _ st k s _ hk
+            · rw [← hnode, ← hcd, ← hpol, hun, hndel]; rfl
+            · simp
+          have hunh : unh ps (st.set k { s with claimDeleting := true }) = unh ps st :=
+            countP_set_same _ st k s _ hk rfl
+          rw [hunh, List.length_set] at this
+          have hthr : unh ps st ≤ threshold st.length := by
+            unfold nodesHealthy at hhealthy
+            rw [hcnt, hlen] at hhealthy
+            simpa using hhealthy
+          refine ⟨?_, fun _ => hthr⟩
+          have h1 := this.1
+          unfold totalDeletes at h1
+          omega
+        · have hz : (repairB i).1.deletes = 0 := by
+            have : (repair i).deletes = 0 := by omega
+            exact this
+          have hdel : stepDeleted (.reconcile k now nlf .none) (some (i, (repairB i).1, (repairB i).2)) = false := by
+            simp [stepDeleted, hz]
+          rw [hdel]
+          simp only [applyEvent, Bool.false_eq_true, if_false, hz, Nat.zero_add]
+          exact ih st hu hqr
 
 end Karp.Reapers
